@@ -14,15 +14,23 @@ Inductive case :=
 Definition qpts (pts : list (Z * Z)) : list pt := map (fun p => (inject_Z (fst p), inject_Z (snd p))) pts.
 Definition tri_inb (t : tri) (l : list tri) : bool := existsb (tri_eqb t) l.
 
-(* model vs implementation: the same set of index triples (exact triples, not up to rotation) *)
+(* a triangle is a cyclic triple: rotate the smallest index to the front (keeps the winding) *)
+Definition canon (t : tri) : tri :=
+  let '(a, b, c) := t in
+  if ((a <=? b) && (a <=? c))%nat then t
+  else if ((b <=? a) && (b <=? c))%nat then (b, c, a) else (c, a, b).
+
+(* model vs implementation: the same set of wound triangles (the order of the index buffer is the
+   map order and the rotation of a triple is not an observable the statement talks about), and the
+   run of the model meets the hypotheses of bw_delaunay_partial on this input *)
 Definition corr_ok (c : case) : bool :=
   match c with
   | CTri m _ _ pts tris _ =>
       if m then
         match bw (qpts pts) with
-        | Some ts => (length ts =? length tris)%nat &&
+        | Some ts => let ts := map canon ts in let tris := map canon tris in
+                     (length ts =? length tris)%nat &&
                      forallb (fun t => tri_inb t tris) ts && forallb (fun t => tri_inb t ts) tris &&
-                     (* the run of the model meets the hypotheses of bw_delaunay_partial on this input *)
                      cavities_okb super_fixed (qpts pts)
         | None => false
         end
